@@ -339,7 +339,8 @@ V('ln1-splitlines', ['C16'], T2,
   "    return list(m.start(0) for m in re.finditer(r'\\n', '\\n' + s))",
   "    starts = [0]\n    for lin in s.splitlines(True):\n        starts.append(starts[-1] + len(lin))\n    return starts", 'LN1')
 V('rp1-no-escape', ['C13'], U, "t += s + re.escape(lin[i])", "t += s + lin[i]", 'RP1')
-V('rp1-sep-multi', ['C13'], U, "s = r'(?:[ \\t]*\\n[ \\t]*|[ \\t]+)'", "s = r'\\s+'", 'RP1')
+V('rp1-sep-multi', ['C13'], U, "s = r'(?:[^\\S\\n]*\\n[^\\S\\n]*|[^\\S\\n]+)'", "s = r'\\s+'", 'RP1')
+V('rp1-sep-narrow', ['C13'], U, "s = r'(?:[^\\S\\n]*\\n[^\\S\\n]*|[^\\S\\n]+)'", "s = r'(?:[ \\t]*\\n[ \\t]*|[ \\t]+)'", 'RP1')
 V('rp1-boundary-word', ['C13'], U, "        if t[-1].isalpha():", "        if lin[-1][-1].isalpha():", 'RP1')
 V('rp1-no-skip', ['C13'], U, "        if not t:\n            continue\n", "", 'RP1')
 V('ck1-pattern', ['C20'], CH, "    single = r'\\b[^\\W0-9_]\\b'", "    single = r'\\b[^\\W0-9]\\b'", 'CK1')
